@@ -8,6 +8,11 @@ import (
 	"os"
 )
 
+var onlyTag string
+
+// want reports whether the history with this tag is to be executed (replay filter).
+func want(tag string) bool { return onlyTag == "" || onlyTag == tag }
+
 func main() {
 	if len(os.Args) < 2 {
 		fmt.Fprintln(os.Stderr, "usage: harness <cmd> [flags]")
@@ -20,8 +25,10 @@ func main() {
 	depth := fs.Int("depth", 2, "exhaustive depth where applicable")
 	out := fs.String("out", ".", "output directory")
 	prop := fs.String("prop", "", "property id")
+	only := fs.String("only", "", "run only the history with this tag (replay)")
 	must(fs.Parse(os.Args[2:]))
 	must(os.MkdirAll(*out, 0o755))
+	onlyTag = *only
 	switch cmd {
 	case "gen":
 		cmdGen(*out)
